@@ -131,6 +131,7 @@ package vm
 //@ ensures[value] depth(v) == old(depth(v)) && topInt(v, old(-x0(v) - 1))
 //@ ensures[rest] forall(j, 0, depth(v) - 1, v.estack.elems[j] == old(v.estack.elems[j]))
 //@ ensures[err] v.refs <= MaxStackSize ==> err == nil
+//@ ensures[operands] (is(old(item(v, 0)), *stackitem.BigInteger) ==> (*big.Int)(old(item(v, 0)).(*stackitem.BigInteger)).v == old(x0(v)))   // an Integer operand is left as it was (items are shared)
 
 //@ case SIGN
 //@ opt inline-defers yes
@@ -140,6 +141,7 @@ package vm
 //@ ensures[value] depth(v) == old(depth(v)) && topInt(v, old(ite(x0(v) > 0, 1, ite(x0(v) < 0, -1, 0))))
 //@ ensures[rest] forall(j, 0, depth(v) - 1, v.estack.elems[j] == old(v.estack.elems[j]))
 //@ ensures[err] v.refs <= MaxStackSize ==> err == nil
+//@ ensures[operands] (is(old(item(v, 0)), *stackitem.BigInteger) ==> (*big.Int)(old(item(v, 0)).(*stackitem.BigInteger)).v == old(x0(v)))   // an Integer operand is left as it was (items are shared)
 
 //@ case ABS
 //@ opt inline-defers yes
@@ -149,6 +151,7 @@ package vm
 //@ ensures[value] depth(v) == old(depth(v)) && topInt(v, old(abs(x0(v))))
 //@ ensures[rest] forall(j, 0, depth(v) - 1, v.estack.elems[j] == old(v.estack.elems[j]))
 //@ ensures[err] v.refs <= MaxStackSize ==> err == nil
+//@ ensures[operands] (is(old(item(v, 0)), *stackitem.BigInteger) ==> (*big.Int)(old(item(v, 0)).(*stackitem.BigInteger)).v == old(x0(v)))   // an Integer operand is left as it was (items are shared)
 
 //@ case NEGATE
 //@ opt inline-defers yes
@@ -158,6 +161,7 @@ package vm
 //@ ensures[value] depth(v) == old(depth(v)) && topInt(v, old(-x0(v)))
 //@ ensures[rest] forall(j, 0, depth(v) - 1, v.estack.elems[j] == old(v.estack.elems[j]))
 //@ ensures[err] v.refs <= MaxStackSize ==> err == nil
+//@ ensures[operands] (is(old(item(v, 0)), *stackitem.BigInteger) ==> (*big.Int)(old(item(v, 0)).(*stackitem.BigInteger)).v == old(x0(v)))   // an Integer operand is left as it was (items are shared)
 
 //@ case INC
 //@ opt inline-defers yes
@@ -167,6 +171,7 @@ package vm
 //@ ensures[value] depth(v) == old(depth(v)) && topInt(v, old(x0(v) + 1))
 //@ ensures[rest] forall(j, 0, depth(v) - 1, v.estack.elems[j] == old(v.estack.elems[j]))
 //@ ensures[err] v.refs <= MaxStackSize ==> err == nil
+//@ ensures[operands] (is(old(item(v, 0)), *stackitem.BigInteger) ==> (*big.Int)(old(item(v, 0)).(*stackitem.BigInteger)).v == old(x0(v)))   // an Integer operand is left as it was (items are shared)
 
 //@ case DEC
 //@ opt inline-defers yes
@@ -176,6 +181,7 @@ package vm
 //@ ensures[value] depth(v) == old(depth(v)) && topInt(v, old(x0(v) - 1))
 //@ ensures[rest] forall(j, 0, depth(v) - 1, v.estack.elems[j] == old(v.estack.elems[j]))
 //@ ensures[err] v.refs <= MaxStackSize ==> err == nil
+//@ ensures[operands] (is(old(item(v, 0)), *stackitem.BigInteger) ==> (*big.Int)(old(item(v, 0)).(*stackitem.BigInteger)).v == old(x0(v)))   // an Integer operand is left as it was (items are shared)
 
 // SQRT: the floor of the square root; negative operand faults
 //@ case SQRT
@@ -186,6 +192,7 @@ package vm
 //@ ensures[value] depth(v) == old(depth(v)) && is(item(v, 0), *stackitem.BigInteger) && stackitem.wfItem(item(v, 0)) && x0(v) >= 0 && x0(v) * x0(v) <= old(x0(v)) && old(x0(v)) < (x0(v) + 1) * (x0(v) + 1)
 //@ ensures[rest] forall(j, 0, depth(v) - 1, v.estack.elems[j] == old(v.estack.elems[j]))
 //@ ensures[err] v.refs <= MaxStackSize ==> err == nil
+//@ ensures[operands] (is(old(item(v, 0)), *stackitem.BigInteger) ==> (*big.Int)(old(item(v, 0)).(*stackitem.BigInteger)).v == old(x0(v)))   // an Integer operand is left as it was (items are shared)
 
 //@ case NZ
 //@ opt inline-defers yes
@@ -195,6 +202,7 @@ package vm
 //@ ensures[value] depth(v) == old(depth(v)) && topBool(v, old(x0(v) != 0))
 //@ ensures[rest] forall(j, 0, depth(v) - 1, v.estack.elems[j] == old(v.estack.elems[j]))
 //@ ensures[err] v.refs <= MaxStackSize ==> err == nil
+//@ ensures[operands] (is(old(item(v, 0)), *stackitem.BigInteger) ==> (*big.Int)(old(item(v, 0)).(*stackitem.BigInteger)).v == old(x0(v)))   // an Integer operand is left as it was (items are shared)
 
 //@ case NOT
 //@ opt inline-defers yes
@@ -214,6 +222,7 @@ package vm
 //@ ensures[value] depth(v) == old(depth(v)) - 1 && topInt(v, old(x1(v) + x0(v)))
 //@ ensures[rest] forall(j, 0, depth(v) - 1, v.estack.elems[j] == old(v.estack.elems[j]))
 //@ ensures[err] v.refs <= MaxStackSize ==> err == nil
+//@ ensures[operands] (is(old(item(v, 0)), *stackitem.BigInteger) ==> (*big.Int)(old(item(v, 0)).(*stackitem.BigInteger)).v == old(x0(v))) && (is(old(item(v, 1)), *stackitem.BigInteger) ==> (*big.Int)(old(item(v, 1)).(*stackitem.BigInteger)).v == old(x1(v)))   // an Integer operand is left as it was (items are shared)
 
 //@ case SUB
 //@ opt inline-defers yes
@@ -223,6 +232,7 @@ package vm
 //@ ensures[value] depth(v) == old(depth(v)) - 1 && topInt(v, old(x1(v) - x0(v)))
 //@ ensures[rest] forall(j, 0, depth(v) - 1, v.estack.elems[j] == old(v.estack.elems[j]))
 //@ ensures[err] v.refs <= MaxStackSize ==> err == nil
+//@ ensures[operands] (is(old(item(v, 0)), *stackitem.BigInteger) ==> (*big.Int)(old(item(v, 0)).(*stackitem.BigInteger)).v == old(x0(v))) && (is(old(item(v, 1)), *stackitem.BigInteger) ==> (*big.Int)(old(item(v, 1)).(*stackitem.BigInteger)).v == old(x1(v)))   // an Integer operand is left as it was (items are shared)
 
 //@ case MUL
 //@ opt inline-defers yes
@@ -232,6 +242,7 @@ package vm
 //@ ensures[value] depth(v) == old(depth(v)) - 1 && topInt(v, old(x1(v) * x0(v)))
 //@ ensures[rest] forall(j, 0, depth(v) - 1, v.estack.elems[j] == old(v.estack.elems[j]))
 //@ ensures[err] v.refs <= MaxStackSize ==> err == nil
+//@ ensures[operands] (is(old(item(v, 0)), *stackitem.BigInteger) ==> (*big.Int)(old(item(v, 0)).(*stackitem.BigInteger)).v == old(x0(v))) && (is(old(item(v, 1)), *stackitem.BigInteger) ==> (*big.Int)(old(item(v, 1)).(*stackitem.BigInteger)).v == old(x1(v)))   // an Integer operand is left as it was (items are shared)
 
 // DIV, MOD: truncated division, the remainder takes the sign of the dividend; zero divisor faults
 //@ case DIV
@@ -242,6 +253,7 @@ package vm
 //@ ensures[value] depth(v) == old(depth(v)) - 1 && topInt(v, old(big.tquo(x1(v), x0(v))))
 //@ ensures[rest] forall(j, 0, depth(v) - 1, v.estack.elems[j] == old(v.estack.elems[j]))
 //@ ensures[err] v.refs <= MaxStackSize ==> err == nil
+//@ ensures[operands] (is(old(item(v, 0)), *stackitem.BigInteger) ==> (*big.Int)(old(item(v, 0)).(*stackitem.BigInteger)).v == old(x0(v))) && (is(old(item(v, 1)), *stackitem.BigInteger) ==> (*big.Int)(old(item(v, 1)).(*stackitem.BigInteger)).v == old(x1(v)))   // an Integer operand is left as it was (items are shared)
 
 //@ case MOD
 //@ opt inline-defers yes
@@ -251,6 +263,7 @@ package vm
 //@ ensures[value] depth(v) == old(depth(v)) - 1 && topInt(v, old(big.trem(x1(v), x0(v))))
 //@ ensures[rest] forall(j, 0, depth(v) - 1, v.estack.elems[j] == old(v.estack.elems[j]))
 //@ ensures[err] v.refs <= MaxStackSize ==> err == nil
+//@ ensures[operands] (is(old(item(v, 0)), *stackitem.BigInteger) ==> (*big.Int)(old(item(v, 0)).(*stackitem.BigInteger)).v == old(x0(v))) && (is(old(item(v, 1)), *stackitem.BigInteger) ==> (*big.Int)(old(item(v, 1)).(*stackitem.BigInteger)).v == old(x1(v)))   // an Integer operand is left as it was (items are shared)
 
 // POW: exponent in 0..256, x**0 = 1
 //@ case POW
@@ -261,6 +274,7 @@ package vm
 //@ ensures[value] depth(v) == old(depth(v)) - 1 && topInt(v, old(ite(x0(v) == 0, 1, big.ipow(x1(v), x0(v)))))
 //@ ensures[rest] forall(j, 0, depth(v) - 1, v.estack.elems[j] == old(v.estack.elems[j]))
 //@ ensures[err] v.refs <= MaxStackSize ==> err == nil
+//@ ensures[operands] (is(old(item(v, 0)), *stackitem.BigInteger) ==> (*big.Int)(old(item(v, 0)).(*stackitem.BigInteger)).v == old(x0(v))) && (is(old(item(v, 1)), *stackitem.BigInteger) ==> (*big.Int)(old(item(v, 1)).(*stackitem.BigInteger)).v == old(x1(v)))   // an Integer operand is left as it was (items are shared)
 
 //@ case AND
 //@ opt inline-defers yes
@@ -270,6 +284,7 @@ package vm
 //@ ensures[value] depth(v) == old(depth(v)) - 1 && topInt(v, old(big.bitand(x0(v), x1(v))))
 //@ ensures[rest] forall(j, 0, depth(v) - 1, v.estack.elems[j] == old(v.estack.elems[j]))
 //@ ensures[err] v.refs <= MaxStackSize ==> err == nil
+//@ ensures[operands] (is(old(item(v, 0)), *stackitem.BigInteger) ==> (*big.Int)(old(item(v, 0)).(*stackitem.BigInteger)).v == old(x0(v))) && (is(old(item(v, 1)), *stackitem.BigInteger) ==> (*big.Int)(old(item(v, 1)).(*stackitem.BigInteger)).v == old(x1(v)))   // an Integer operand is left as it was (items are shared)
 
 //@ case OR
 //@ opt inline-defers yes
@@ -279,6 +294,7 @@ package vm
 //@ ensures[value] depth(v) == old(depth(v)) - 1 && topInt(v, old(big.bitor(x0(v), x1(v))))
 //@ ensures[rest] forall(j, 0, depth(v) - 1, v.estack.elems[j] == old(v.estack.elems[j]))
 //@ ensures[err] v.refs <= MaxStackSize ==> err == nil
+//@ ensures[operands] (is(old(item(v, 0)), *stackitem.BigInteger) ==> (*big.Int)(old(item(v, 0)).(*stackitem.BigInteger)).v == old(x0(v))) && (is(old(item(v, 1)), *stackitem.BigInteger) ==> (*big.Int)(old(item(v, 1)).(*stackitem.BigInteger)).v == old(x1(v)))   // an Integer operand is left as it was (items are shared)
 
 //@ case XOR
 //@ opt inline-defers yes
@@ -288,6 +304,7 @@ package vm
 //@ ensures[value] depth(v) == old(depth(v)) - 1 && topInt(v, old(big.bitxor(x0(v), x1(v))))
 //@ ensures[rest] forall(j, 0, depth(v) - 1, v.estack.elems[j] == old(v.estack.elems[j]))
 //@ ensures[err] v.refs <= MaxStackSize ==> err == nil
+//@ ensures[operands] (is(old(item(v, 0)), *stackitem.BigInteger) ==> (*big.Int)(old(item(v, 0)).(*stackitem.BigInteger)).v == old(x0(v))) && (is(old(item(v, 1)), *stackitem.BigInteger) ==> (*big.Int)(old(item(v, 1)).(*stackitem.BigInteger)).v == old(x1(v)))   // an Integer operand is left as it was (items are shared)
 
 // SHL, SHR with a non-zero shift: the shift must be in 1..256; SHL multiplies by 2^n, SHR divides
 // rounding towards minus infinity (arithmetic shift)
@@ -299,6 +316,7 @@ package vm
 //@ ensures[value] depth(v) == old(depth(v)) - 1 && topInt(v, old(x1(v) * big.pow2(x0(v))))
 //@ ensures[rest] forall(j, 0, depth(v) - 1, v.estack.elems[j] == old(v.estack.elems[j]))
 //@ ensures[err] v.refs <= MaxStackSize ==> err == nil
+//@ ensures[operands] (is(old(item(v, 0)), *stackitem.BigInteger) ==> (*big.Int)(old(item(v, 0)).(*stackitem.BigInteger)).v == old(x0(v))) && (is(old(item(v, 1)), *stackitem.BigInteger) ==> (*big.Int)(old(item(v, 1)).(*stackitem.BigInteger)).v == old(x1(v)))   // an Integer operand is left as it was (items are shared)
 
 //@ case SHR
 //@ opt inline-defers yes
@@ -308,6 +326,7 @@ package vm
 //@ ensures[value] depth(v) == old(depth(v)) - 1 && topInt(v, old(div(x1(v), big.pow2(x0(v)))))
 //@ ensures[rest] forall(j, 0, depth(v) - 1, v.estack.elems[j] == old(v.estack.elems[j]))
 //@ ensures[err] v.refs <= MaxStackSize ==> err == nil
+//@ ensures[operands] (is(old(item(v, 0)), *stackitem.BigInteger) ==> (*big.Int)(old(item(v, 0)).(*stackitem.BigInteger)).v == old(x0(v))) && (is(old(item(v, 1)), *stackitem.BigInteger) ==> (*big.Int)(old(item(v, 1)).(*stackitem.BigInteger)).v == old(x1(v)))   // an Integer operand is left as it was (items are shared)
 
 // a zero shift: the value is unchanged (before the Gorgon hardfork the operand is left as it is,
 // afterwards it is converted to an Integer; both are the specification's behaviour for their era)
@@ -318,6 +337,7 @@ package vm
 //@ ensures[value] depth(v) == old(depth(v)) - 1 && (item(v, 0) == old(item(v, 1)) || (old(stackitem.isInt(item(v, 1))) && topInt(v, old(x1(v)))))
 //@ ensures[rest] forall(j, 0, depth(v) - 1, v.estack.elems[j] == old(v.estack.elems[j]))
 //@ ensures[err] v.refs <= MaxStackSize ==> err == nil
+//@ ensures[operands] (is(old(item(v, 0)), *stackitem.BigInteger) ==> (*big.Int)(old(item(v, 0)).(*stackitem.BigInteger)).v == old(x0(v)))   // an Integer operand is left as it was (items are shared)
 
 //@ case MIN
 //@ opt inline-defers yes
@@ -327,6 +347,7 @@ package vm
 //@ ensures[value] depth(v) == old(depth(v)) - 1 && topInt(v, old(min(x1(v), x0(v))))
 //@ ensures[rest] forall(j, 0, depth(v) - 1, v.estack.elems[j] == old(v.estack.elems[j]))
 //@ ensures[err] v.refs <= MaxStackSize ==> err == nil
+//@ ensures[operands] (is(old(item(v, 0)), *stackitem.BigInteger) ==> (*big.Int)(old(item(v, 0)).(*stackitem.BigInteger)).v == old(x0(v))) && (is(old(item(v, 1)), *stackitem.BigInteger) ==> (*big.Int)(old(item(v, 1)).(*stackitem.BigInteger)).v == old(x1(v)))   // an Integer operand is left as it was (items are shared)
 
 //@ case MAX
 //@ opt inline-defers yes
@@ -336,6 +357,7 @@ package vm
 //@ ensures[value] depth(v) == old(depth(v)) - 1 && topInt(v, old(max(x1(v), x0(v))))
 //@ ensures[rest] forall(j, 0, depth(v) - 1, v.estack.elems[j] == old(v.estack.elems[j]))
 //@ ensures[err] v.refs <= MaxStackSize ==> err == nil
+//@ ensures[operands] (is(old(item(v, 0)), *stackitem.BigInteger) ==> (*big.Int)(old(item(v, 0)).(*stackitem.BigInteger)).v == old(x0(v))) && (is(old(item(v, 1)), *stackitem.BigInteger) ==> (*big.Int)(old(item(v, 1)).(*stackitem.BigInteger)).v == old(x1(v)))   // an Integer operand is left as it was (items are shared)
 
 // ================= comparisons and boolean operators
 //@ case NUMEQUAL
@@ -346,6 +368,7 @@ package vm
 //@ ensures[value] depth(v) == old(depth(v)) - 1 && topBool(v, old(x1(v) == x0(v)))
 //@ ensures[rest] forall(j, 0, depth(v) - 1, v.estack.elems[j] == old(v.estack.elems[j]))
 //@ ensures[err] v.refs <= MaxStackSize ==> err == nil
+//@ ensures[operands] (is(old(item(v, 0)), *stackitem.BigInteger) ==> (*big.Int)(old(item(v, 0)).(*stackitem.BigInteger)).v == old(x0(v))) && (is(old(item(v, 1)), *stackitem.BigInteger) ==> (*big.Int)(old(item(v, 1)).(*stackitem.BigInteger)).v == old(x1(v)))   // an Integer operand is left as it was (items are shared)
 
 //@ case NUMNOTEQUAL
 //@ opt inline-defers yes
@@ -355,6 +378,7 @@ package vm
 //@ ensures[value] depth(v) == old(depth(v)) - 1 && topBool(v, old(x1(v) != x0(v)))
 //@ ensures[rest] forall(j, 0, depth(v) - 1, v.estack.elems[j] == old(v.estack.elems[j]))
 //@ ensures[err] v.refs <= MaxStackSize ==> err == nil
+//@ ensures[operands] (is(old(item(v, 0)), *stackitem.BigInteger) ==> (*big.Int)(old(item(v, 0)).(*stackitem.BigInteger)).v == old(x0(v))) && (is(old(item(v, 1)), *stackitem.BigInteger) ==> (*big.Int)(old(item(v, 1)).(*stackitem.BigInteger)).v == old(x1(v)))   // an Integer operand is left as it was (items are shared)
 
 // ordering: a Null operand gives false without looking at the other one
 //@ spec nulls2(v *VM) bool = is(item(v, 0), stackitem.Null) || is(item(v, 1), stackitem.Null)
@@ -366,6 +390,7 @@ package vm
 //@ ensures[value] depth(v) == old(depth(v)) - 1 && topBool(v, old(!nulls2(v) && x1(v) < x0(v)))
 //@ ensures[rest] forall(j, 0, depth(v) - 1, v.estack.elems[j] == old(v.estack.elems[j]))
 //@ ensures[err] v.refs <= MaxStackSize ==> err == nil
+//@ ensures[operands] (is(old(item(v, 0)), *stackitem.BigInteger) ==> (*big.Int)(old(item(v, 0)).(*stackitem.BigInteger)).v == old(x0(v))) && (is(old(item(v, 1)), *stackitem.BigInteger) ==> (*big.Int)(old(item(v, 1)).(*stackitem.BigInteger)).v == old(x1(v)))   // an Integer operand is left as it was (items are shared)
 
 //@ case LE
 //@ opt inline-defers yes
@@ -375,6 +400,7 @@ package vm
 //@ ensures[value] depth(v) == old(depth(v)) - 1 && topBool(v, old(!nulls2(v) && x1(v) <= x0(v)))
 //@ ensures[rest] forall(j, 0, depth(v) - 1, v.estack.elems[j] == old(v.estack.elems[j]))
 //@ ensures[err] v.refs <= MaxStackSize ==> err == nil
+//@ ensures[operands] (is(old(item(v, 0)), *stackitem.BigInteger) ==> (*big.Int)(old(item(v, 0)).(*stackitem.BigInteger)).v == old(x0(v))) && (is(old(item(v, 1)), *stackitem.BigInteger) ==> (*big.Int)(old(item(v, 1)).(*stackitem.BigInteger)).v == old(x1(v)))   // an Integer operand is left as it was (items are shared)
 
 //@ case GT
 //@ opt inline-defers yes
@@ -384,6 +410,7 @@ package vm
 //@ ensures[value] depth(v) == old(depth(v)) - 1 && topBool(v, old(!nulls2(v) && x1(v) > x0(v)))
 //@ ensures[rest] forall(j, 0, depth(v) - 1, v.estack.elems[j] == old(v.estack.elems[j]))
 //@ ensures[err] v.refs <= MaxStackSize ==> err == nil
+//@ ensures[operands] (is(old(item(v, 0)), *stackitem.BigInteger) ==> (*big.Int)(old(item(v, 0)).(*stackitem.BigInteger)).v == old(x0(v))) && (is(old(item(v, 1)), *stackitem.BigInteger) ==> (*big.Int)(old(item(v, 1)).(*stackitem.BigInteger)).v == old(x1(v)))   // an Integer operand is left as it was (items are shared)
 
 //@ case GE
 //@ opt inline-defers yes
@@ -393,6 +420,7 @@ package vm
 //@ ensures[value] depth(v) == old(depth(v)) - 1 && topBool(v, old(!nulls2(v) && x1(v) >= x0(v)))
 //@ ensures[rest] forall(j, 0, depth(v) - 1, v.estack.elems[j] == old(v.estack.elems[j]))
 //@ ensures[err] v.refs <= MaxStackSize ==> err == nil
+//@ ensures[operands] (is(old(item(v, 0)), *stackitem.BigInteger) ==> (*big.Int)(old(item(v, 0)).(*stackitem.BigInteger)).v == old(x0(v))) && (is(old(item(v, 1)), *stackitem.BigInteger) ==> (*big.Int)(old(item(v, 1)).(*stackitem.BigInteger)).v == old(x1(v)))   // an Integer operand is left as it was (items are shared)
 
 //@ case BOOLAND
 //@ opt inline-defers yes
@@ -422,6 +450,7 @@ package vm
 //@ ensures[value] depth(v) == old(depth(v)) - 2 && topBool(v, old(x1(v) <= x2(v) && x2(v) < x0(v)))
 //@ ensures[rest] forall(j, 0, depth(v) - 1, v.estack.elems[j] == old(v.estack.elems[j]))
 //@ ensures[err] v.refs <= MaxStackSize ==> err == nil
+//@ ensures[operands] (is(old(item(v, 0)), *stackitem.BigInteger) ==> (*big.Int)(old(item(v, 0)).(*stackitem.BigInteger)).v == old(x0(v))) && (is(old(item(v, 1)), *stackitem.BigInteger) ==> (*big.Int)(old(item(v, 1)).(*stackitem.BigInteger)).v == old(x1(v))) && (is(old(item(v, 2)), *stackitem.BigInteger) ==> (*big.Int)(old(item(v, 2)).(*stackitem.BigInteger)).v == old(x2(v)))   // an Integer operand is left as it was (items are shared)
 
 // MODMUL: (x2 * x1) rem x0 with the sign of the product (big.imul(a, b) is a*b); zero modulus faults
 //@ case MODMUL
@@ -432,6 +461,7 @@ package vm
 //@ ensures[value] depth(v) == old(depth(v)) - 2 && topInt(v, old(big.trem(big.imul(x2(v), x1(v)), x0(v))))
 //@ ensures[rest] forall(j, 0, depth(v) - 1, v.estack.elems[j] == old(v.estack.elems[j]))
 //@ ensures[err] v.refs <= MaxStackSize ==> err == nil
+//@ ensures[operands] (is(old(item(v, 0)), *stackitem.BigInteger) ==> (*big.Int)(old(item(v, 0)).(*stackitem.BigInteger)).v == old(x0(v))) && (is(old(item(v, 1)), *stackitem.BigInteger) ==> (*big.Int)(old(item(v, 1)).(*stackitem.BigInteger)).v == old(x1(v))) && (is(old(item(v, 2)), *stackitem.BigInteger) ==> (*big.Int)(old(item(v, 2)).(*stackitem.BigInteger)).v == old(x2(v)))   // an Integer operand is left as it was (items are shared)
 
 // MODPOW (x2 base, x1 exponent, x0 modulus): exponent -1 asks for the modular inverse (base > 0,
 // modulus >= 2, coprime), exponent >= 0 for base**exponent rem modulus with the sign of the power
@@ -446,6 +476,7 @@ package vm
 //@ ensures[power] x0(v) == old(big.trem(modpowPower(x2(v), x1(v)), x0(v)))
 //@ ensures[rest] forall(j, 0, depth(v) - 1, v.estack.elems[j] == old(v.estack.elems[j]))
 //@ ensures[err] v.refs <= MaxStackSize ==> err == nil
+//@ ensures[operands] (is(old(item(v, 0)), *stackitem.BigInteger) ==> (*big.Int)(old(item(v, 0)).(*stackitem.BigInteger)).v == old(x0(v))) && (is(old(item(v, 1)), *stackitem.BigInteger) ==> (*big.Int)(old(item(v, 1)).(*stackitem.BigInteger)).v == old(x1(v))) && (is(old(item(v, 2)), *stackitem.BigInteger) ==> (*big.Int)(old(item(v, 2)).(*stackitem.BigInteger)).v == old(x2(v)))   // an Integer operand is left as it was (items are shared)
 
 //@ case MODPOWINV
 //@ opt inline-defers yes
@@ -456,6 +487,7 @@ package vm
 //@ ensures[inverse] 0 <= x0(v) && x0(v) < old(x0(v)) && big.isInverse(x0(v), old(x2(v)), old(x0(v)))   // x0' * base == 1 modulo the modulus
 //@ ensures[rest] forall(j, 0, depth(v) - 1, v.estack.elems[j] == old(v.estack.elems[j]))
 //@ ensures[err] v.refs <= MaxStackSize ==> err == nil
+//@ ensures[operands] (is(old(item(v, 0)), *stackitem.BigInteger) ==> (*big.Int)(old(item(v, 0)).(*stackitem.BigInteger)).v == old(x0(v))) && (is(old(item(v, 1)), *stackitem.BigInteger) ==> (*big.Int)(old(item(v, 1)).(*stackitem.BigInteger)).v == old(x1(v))) && (is(old(item(v, 2)), *stackitem.BigInteger) ==> (*big.Int)(old(item(v, 2)).(*stackitem.BigInteger)).v == old(x2(v)))   // an Integer operand is left as it was (items are shared)
 
 // ================= stack manipulation =================
 // Positions are counted from the top: elems[len-1-k] is the k-th element.
@@ -528,6 +560,7 @@ package vm
 //@ ensures[value] depth(v) == old(depth(v)) && item(v, 0) == old(v.estack.elems[len(v.estack.elems)-2-x0(v)].value)
 //@ ensures[rest] forall(j, 0, depth(v) - 1, v.estack.elems[j] == old(v.estack.elems[j]))
 //@ ensures[err] v.refs <= MaxStackSize ==> err == nil
+//@ ensures[operands] (is(old(item(v, 0)), *stackitem.BigInteger) ==> (*big.Int)(old(item(v, 0)).(*stackitem.BigInteger)).v == old(x0(v)))   // an Integer operand is left as it was (items are shared)
 
 // DROP, NIP, XDROP: the k-th element is removed
 //@ case DROP
@@ -555,6 +588,7 @@ package vm
 //@ ensures[below] forall(j, 0, depth(v) - old(x0(v)), v.estack.elems[j] == old(v.estack.elems[j]))
 //@ ensures[above] forall(j, depth(v) - old(x0(v)), depth(v), v.estack.elems[j] == old(v.estack.elems[j+1]))
 //@ ensures[err] v.refs <= MaxStackSize ==> err == nil
+//@ ensures[operands] (is(old(item(v, 0)), *stackitem.BigInteger) ==> (*big.Int)(old(item(v, 0)).(*stackitem.BigInteger)).v == old(x0(v)))   // an Integer operand is left as it was (items are shared)
 
 // SWAP, ROT, ROLL, TUCK: a permutation of the top elements
 //@ case SWAP
@@ -582,6 +616,7 @@ package vm
 //@ ensures[shifted] forall(j, depth(v) - 1 - old(x0(v)), depth(v) - 1, v.estack.elems[j] == old(v.estack.elems[j+1]))
 //@ ensures[rest] forall(j, 0, depth(v) - 1 - old(x0(v)), v.estack.elems[j] == old(v.estack.elems[j]))
 //@ ensures[err] v.refs <= MaxStackSize ==> err == nil
+//@ ensures[operands] (is(old(item(v, 0)), *stackitem.BigInteger) ==> (*big.Int)(old(item(v, 0)).(*stackitem.BigInteger)).v == old(x0(v)))   // an Integer operand is left as it was (items are shared)
 
 //@ case TUCK
 //@ opt inline-defers yes
@@ -645,3 +680,15 @@ package vm
 //@ ensures[args] len(ctx.arguments) == old(parameter[1]) && forall(i, 0, len(ctx.arguments), ctx.arguments[i] == old(v.estack.elems[len(v.estack.elems)-1-i].value))
 //@ ensures[stack] depth(v) == old(depth(v)) - old(parameter[1]) && forall(j, 0, depth(v), v.estack.elems[j] == old(v.estack.elems[j]))
 //@ ensures[err] v.refs <= MaxStackSize ==> err == nil
+
+// ================= TRY bookkeeping =================
+// An absent catch / finally block is recorded as offset -1; every offset from 0 on (the first
+// instruction of the script included) is a block that exists.
+//@ func newExceptionHandlingContext
+//@ ensures[fields] result != nil && fresh(result) && result.CatchOffset == cOffset && result.FinallyOffset == fOffset && result.EndOffset == -1 && result.State == eTry
+//@ func (*exceptionHandlingContext).HasCatch
+//@ requires c != nil
+//@ ensures[present] result == (c.CatchOffset >= 0)
+//@ func (*exceptionHandlingContext).HasFinally
+//@ requires c != nil
+//@ ensures[present] result == (c.FinallyOffset >= 0)
